@@ -277,6 +277,34 @@ def run(ctx):  # noqa: C901
         b = m.bind(c, cal.func)
         ok = isinstance(b.get("k_param"), ast.Constant) and b["k_param"].value == 2
         ctx.ob("R-BIND", ipr, "two Schmidt coefficients requested (product iff the second vanishes)", ok, "k_param=2" if ok else f"k_param={unparse(b['k_param']) if isinstance(b.get('k_param'), ast.AST) else '?'}", c)
+    # the vectorised operator on subsystems 1..n has local dimensions (rows_s * cols_s): the product DOWN each column of the two-row
+    # dim table (axis 0); a product along the rows gives [prod of all row dims, prod of all column dims]
+    for iop, callee_ in ((m.func("is_product._operator_is_product"), "is_product.is_product"),
+                         (m.func("schmidt_rank._operator_schmidt_rank"), "schmidt_rank.schmidt_rank"),
+                         (m.func("schmidt_decomposition._operator_schmidt_decomposition"), "schmidt_decomposition.schmidt_decomposition")):
+      for c, cal in calls_from(m, iop, callee_):
+        b = m.bind(c, cal.func)
+        d = b.get("dim")
+        if not isinstance(d, ast.AST):
+            continue
+        td = Normalizer(m, iop, inline=True)(d)
+        while td[0] == "call" and ((isinstance(td[1], tuple) and td[1][0] == "attr" and td[1][2] in ("astype", "tolist")) or td[1] in ("builtins.list", "numpy.array", "numpy.asarray", "numpy.int_")):
+            td = td[1][1] if isinstance(td[1], tuple) else td[2][0]
+        okax = None
+        why = f"local dims `{unparse(d)[:60]}` not recognised"
+        if td[0] == "call" and td[1] == "numpy.prod" and td[2] and td[2][0] == ("n", "dim"):
+            ax = kwarg(td, "axis") if kwarg(td, "axis") is not None else (td[2][1] if len(td[2]) > 1 else None)
+            okax = ax == ("c", 0)
+            why = "prod(dim, axis=0): rows_s * cols_s per subsystem" if okax else f"prod(dim, axis={show(ax) if ax else 'None'}) is not the per-subsystem product rows_s * cols_s"
+        elif td[0] == "comp" and td[3]:
+            it = td[3][0][1]
+            # iterating `dim` itself walks its two ROWS; the per-subsystem product needs the columns (dim.T / zip(*dim) / range(dim.shape[1]))
+            if it == ("n", "dim"):
+                okax, why = False, (f"`{unparse(d)[:60]}` iterates over the two rows of the dim table and multiplies each: [prod(row dims), prod(column dims)] "
+                                    "instead of rows_s * cols_s per subsystem (equal only for two subsystems of equal dimension)")
+            elif it == ("T", ("n", "dim")) or (it[0] == "call" and it[1] == "builtins.zip"):
+                okax, why = True, "per-column product"
+        ctx.ob("R-SHAPE", iop, "vectorised operator's local dimensions are rows_s * cols_s (column-wise product of the dim table)", okax, why, c, required=okax is not None)
     Np = Normalizer(m, ipr, inline=False)
     tst = [n for n in walk_no_nested(ipr.node) if isinstance(n, ast.NamedExpr) and isinstance(n.value, ast.Compare)]
     sv_names = {n.targets[0].elts[0].id for n in walk_no_nested(ipr.node) if isinstance(n, ast.Assign) and isinstance(n.targets[0], ast.Tuple) and n.targets[0].elts and isinstance(n.targets[0].elts[0], ast.Name)
